@@ -69,13 +69,30 @@ def canon_status(st):
     return d
 
 
+EDITIONS = []   # (index of edition a, index of edition b) of the two-edition module
 PAIRS = []      # (index of a healthy set, index of its variant with a broken / missing member)
+
+
+EDITION = '''ACME-ED-MIB DEFINITIONS ::= BEGIN
+IMPORTS OBJECT-TYPE, enterprises, Integer32 FROM SNMPv2-SMI;
+EdType ::= %(ty)s
+edScalar OBJECT-TYPE SYNTAX %(ty)s MAX-ACCESS read-only STATUS current DESCRIPTION "d" DEFVAL { 'aabb'H } ::= { enterprises 801 }
+edTyped OBJECT-TYPE SYNTAX EdType MAX-ACCESS read-only STATUS current DESCRIPTION "d" DEFVAL { '0102'H } ::= { enterprises 802 }
+edTable OBJECT-TYPE SYNTAX SEQUENCE OF EdEntry MAX-ACCESS not-accessible STATUS current DESCRIPTION "d" ::= { enterprises 803 }
+edEntry OBJECT-TYPE SYNTAX EdEntry MAX-ACCESS not-accessible STATUS current DESCRIPTION "d" INDEX { edIdx } ::= { edTable 1 }
+EdEntry ::= SEQUENCE { edIdx Integer32%(extra)s }
+edIdx OBJECT-TYPE SYNTAX Integer32 MAX-ACCESS read-only STATUS current DESCRIPTION "d" ::= { edEntry 1 }
+%(extradecl)s
+END
+'''
+EDITION_EXTRA = 'edExtra OBJECT-TYPE SYNTAX Integer32 MAX-ACCESS read-only STATUS current DESCRIPTION "d" ::= { edEntry 2 }'
 
 
 def items(ctx):
     """the pool of inputs: (label, {name: text}, requested names)"""
     rng = ctx.rng
     del PAIRS[:]
+    del EDITIONS[:]
     pool = []
     base = ctx.seed * 1000 + 12000
     n = 10 if ctx.tier == 'quick' else 60
@@ -115,6 +132,12 @@ def items(ctx):
         if i % 4 == 1:
             pool.append(('missing-dependency', {names[0]: texts[names[0]].replace('IMPORTS', 'IMPORTS zzGhost FROM ZZ-GHOST-MIB', 1)}, [names[0]]))
     pool.append(('smiv1-index', {'ACME-V1IDX-MIB': SMIV1_INDEX}, ['ACME-V1IDX-MIB']))
+    # two editions of one module: same module name, same symbol names, other base types under the same DEFVALs, another column
+    # set - nothing remembered about the first edition may show in the second
+    for tag, ty in (('a', 'OCTET STRING'), ('b', 'Integer32')):
+        pool.append(('edition-' + tag, {'ACME-ED-MIB': EDITION % {'ty': ty, 'extra': '' if tag == 'a' else ', edExtra Integer32',
+                                                                'extradecl': '' if tag == 'a' else EDITION_EXTRA}}, ['ACME-ED-MIB']))
+    EDITIONS.append((len(pool) - 2, len(pool) - 1))
     pool.append(('macro-unterminated', {'ACME-M-MIB': 'ACME-M-MIB DEFINITIONS ::= BEGIN x MACRO ::= BEGIN never ends'}, ['ACME-M-MIB']))
     return pool
 
@@ -297,6 +320,8 @@ def run(ctx):
         # with a module in one call says nothing about the next call
         directed.append([vi, hi])
         directed.append([hi, vi, hi])
+    for a_, b_ in EDITIONS:
+        directed += [[a_, b_], [b_, a_], [a_, b_, a_]]
     for h in range(n_hist + len(directed)):
         be = 'json' if h % 2 == 0 else 'pysnmp'
         sc = SharedCompiler(be)
